@@ -14,7 +14,6 @@
 """Symbolic list."""
 
 import dataclasses
-import math
 import numbers
 import typing
 from typing import Any, Callable, Dict, Iterable, Iterator, Optional, Tuple, Union
@@ -453,9 +452,9 @@ class List(list, base.Symbolic, pg_typing.CustomTyping):
         self._value_spec.element if self._value_spec else None,
         old_value, new_value)
 
-  def _ensure_removable(self) -> None:
-    """Raises if removing an element would go below the min size."""
-    if self._value_spec and len(self) <= self._value_spec.min_size:
+  def _ensure_removable(self, count: int = 1) -> None:
+    """Raises if removing `count` elements would go below the min size."""
+    if self._value_spec and len(self) - count < self._value_spec.min_size:
       raise ValueError(
           f'Cannot remove item: min size ({self._value_spec.min_size}) '
           f'is reached.')
@@ -515,20 +514,29 @@ class List(list, base.Symbolic, pg_typing.CustomTyping):
       self._onchange_callback(field_updates)
 
   def _parse_slice(self, index: slice) -> Tuple[int, int, int]:
-    start = index.start if index.start is not None else 0
-    start = max(-len(self), start)
-    start = min(len(self), start)
-    if start < 0:
-      start += len(self)
+    """Returns (start, stop, step) of a slice as `list` normalizes them."""
+    return index.indices(len(self))
 
-    stop = index.stop if index.stop is not None else len(self)
-    stop = max(-len(self), stop)
-    stop = min(len(self), stop)
-    if stop < 0:
-      stop += len(self)
-
-    step = index.step if index.step is not None else 1
-    return start, stop, step
+  def _delete_items(
+      self, indices: typing.Sequence[int]) -> typing.List[base.FieldUpdate]:
+    """Deletes the items at the given (non-negative, ascending) positions."""
+    updates = []
+    if indices:
+      self._ensure_removable(len(indices))
+    for i in reversed(indices):
+      old_value = list.__getitem__(self, i)
+      list.__delitem__(self, i)
+      self._detach(old_value)
+      updates.append(
+          base.FieldUpdate(
+              self.sym_path + i, self,
+              self._value_spec.element if self._value_spec else None,
+              old_value, pg_typing.MISSING_VALUE))
+    if updates:
+      self._update_children_indices()
+      self._invalidate_content_cache()
+      updates.reverse()
+    return updates
 
   def _init_kwargs(self) -> typing.Dict[str, Any]:
     kwargs = super()._init_kwargs()
@@ -578,28 +586,38 @@ class List(list, base.Symbolic, pg_typing.CustomTyping):
                               'Use \'rebind\' method instead.'))
     if isinstance(index, slice):
       start, stop, step = self._parse_slice(index)
-      replacements = [self._formalized_value(i, v) for i, v in enumerate(value)]
-      if step < 0:
-        replacements.reverse()
-        step = -step
-      slice_size = math.ceil((stop - start) * 1.0 / step)
-      if step == 1:
-        if slice_size < len(replacements):
-          for i in range(slice_size, len(replacements)):
-            replacements[i] = Insertion(replacements[i])
-        else:
-          replacements.extend(
-              [pg_typing.MISSING_VALUE
-               for _ in range(slice_size - len(replacements))])
-      elif slice_size != len(replacements):
-        raise ValueError(
-            f'attempt to assign sequence of size {len(replacements)} to '
-            f'extended slice of size {slice_size}')
+      # Assign the symbolic form instead of the evaluated form.
+      values = list(value.sym_values() if isinstance(value, List) else value)
       updates = []
-      for i, r in enumerate(replacements):
-        update = self._set_item_without_permission_check(start + i * step, r)
-        if update is not None:
-          updates.append(update)
+      if step == 1:
+        # As `list` does: the common part is replaced, the rest of the values
+        # is inserted, the rest of the slice is deleted.
+        stop = max(start, stop)
+        new_size = len(self) - (stop - start) + len(values)
+        if self.max_size is not None and new_size > self.max_size:
+          raise ValueError(
+              f'Cannot assign slice: the number of elements ({new_size}) '
+              f'exceeds max size ({self.max_size}).')
+        if new_size < len(self):
+          self._ensure_removable(len(self) - new_size)
+        for i, v in enumerate(values):
+          if start + i >= stop:
+            v = Insertion(v)
+          updates.append(
+              self._set_item_without_permission_check(start + i, v))
+        updates.extend(self._delete_items(range(start + len(values), stop)))
+      else:
+        indices = range(start, stop, step)
+        if len(indices) != len(values):
+          raise ValueError(
+              f'attempt to assign sequence of size {len(values)} to '
+              f'extended slice of size {len(indices)}')
+        if step < 0:
+          indices = indices[::-1]
+          values.reverse()
+        for i, v in zip(indices, values):
+          updates.append(self._set_item_without_permission_check(i, v))
+      updates = [update for update in updates if update is not None]
       if flags.is_change_notification_enabled() and updates:
         self._notify_field_updates(updates)
     elif isinstance(index, numbers.Integral):
